@@ -231,6 +231,43 @@ impl<'a> W<'a> {
         let body = json!({"sender": self.s.sym_of(sender.as_str()), "what": what, "funds": funds_json(&self.s, funds)});
         self.finish("fm_update_config", body, &r)
     }
+    /// paginated farm-manager queries against the full listings
+    pub fn pages(&mut self, limit: u32) {
+        use mantra_dex_std::farm_manager::{FarmsBy, PositionsBy};
+        // farms by LP denom
+        for lp in self.lps.clone() {
+            let all: Vec<String> = { let mut v: Vec<String> = self.s.q_farms().iter().filter(|f| f.lp_denom == lp).map(|f| f.identifier.clone()).collect(); v.sort(); v };
+            let (mut paged, mut sizes, mut start_after) = (vec![], vec![], None::<String>);
+            loop {
+                let r: Result<fm::FarmsResponse, String> = self.s.query(&self.s.farm, &fm::QueryMsg::Farms { filter_by: Some(FarmsBy::LpDenom(lp.clone())), start_after: start_after.clone(), limit: Some(limit) });
+                let Ok(r) = r else { break };
+                if r.farms.is_empty() { break; }
+                sizes.push(r.farms.len());
+                start_after = Some(r.farms.last().unwrap().identifier.clone());
+                paged.extend(r.farms.iter().map(|f| f.identifier.clone()));
+                if paged.len() > 1000 { break; }
+            }
+            self.t.emit("q_pages", json!({"what": format!("farms of {}", self.s.dsym(&lp)), "limit": limit, "all": all, "paged": paged, "page_sizes": sizes}));
+        }
+        // positions by receiver and open state
+        for ui in 1..NUSERS {
+            let u = self.user(ui);
+            for open in [true, false] {
+                let all: Vec<String> = { let mut v: Vec<String> = self.s.q_positions().iter().filter(|p| p.receiver == u && p.open == open).map(|p| p.identifier.clone()).collect(); v.sort(); v };
+                let (mut paged, mut sizes, mut start_after) = (vec![], vec![], None::<String>);
+                loop {
+                    let r: Result<fm::PositionsResponse, String> = self.s.query(&self.s.farm, &fm::QueryMsg::Positions { filter_by: Some(PositionsBy::Receiver(u.to_string())), open_state: Some(open), start_after: start_after.clone(), limit: Some(limit) });
+                    let Ok(r) = r else { break };
+                    if r.positions.is_empty() { break; }
+                    sizes.push(r.positions.len());
+                    start_after = Some(r.positions.last().unwrap().identifier.clone());
+                    paged.extend(r.positions.iter().map(|p| p.identifier.clone()));
+                    if paged.len() > 1000 { break; }
+                }
+                self.t.emit("q_pages", json!({"what": format!("positions of u{} open={open}", ui + 1), "limit": limit.min(10), "all": all, "paged": paged, "page_sizes": sizes}));
+            }
+        }
+    }
     pub fn cur(&self) -> u64 {
         self.s.cur_epoch().unwrap_or(0)
     }
@@ -401,10 +438,10 @@ fn sc_farm_lifecycle(t: &mut Tracer, fee: Coin, reward_denom: &str, name: &str) 
     }
     w.expand_farm(&b, "m-h1", &lp, coin(2666, reward_denom), &[coin(2666, reward_denom)]); // ended -> refused
     w.advance(31 * DAY);
-    w.create_farm(&d, &lp, None, None, reward.clone(), Some("late_not_expired".into()), &exact); // not yet expired -> limit
-    w.advance(DAY);
     w.close_farm(&d, "m-h1", &[]); // expired farm of somebody else: still only its owner or the contract owner may close it
     w.close_farm(&c, "m-h1", &[]);
+    w.create_farm(&d, &lp, None, None, reward.clone(), Some("late_not_expired".into()), &exact); // not yet expired -> limit
+    w.advance(DAY);
     w.create_farm(&d, &lp, None, None, reward.clone(), Some("late".into()), &exact); // expired -> auto close of h1,h2
     w.claim(&b, None, &[]);
     w.claim(&c, None, &[]);
@@ -644,8 +681,79 @@ fn sc_many_farms_exact_thirds_long_farm(t: &mut Tracer) {
     w.claim(&b, None, &[]);
     w.claim(&c, None, &[]);
     w.close_farm(&o, "m-k0", &[]); // contract owner closes somebody else's farm: refund goes to the farm owner
+    w.pages(5);
     w.close_farm(&o, "m-nine", &[]);
     w.claim(&b, None, &[]);
+}
+
+/// C07 twin: one fixed history of positions and farms, executed under different claim schedules; the totals each
+/// user receives over the whole span must be identical. The history itself contains no step that depends on claims.
+fn sc_claim_schedule_twins(rng: &mut StdRng, t: &mut Tracer, nsched: usize) {
+    let mut totals: Vec<Value> = vec![];
+    let epochs = 9u64;
+    for sched in 0..nsched {
+        let mut w = W::new(SysCfg::default(), 2, t, &format!("claim_schedule_twin_{sched}"));
+        let (lp, lp2) = (w.lps[0].clone(), w.lps[1].clone());
+        let (o, b, c, d) = (w.user(0), w.user(1), w.user(2), w.user(3));
+        let f = w.fee_funds(&coin(9_009, "uweth"));
+        w.create_farm(&o, &lp, Some(1), Some(8), coin(9_009, "uweth"), Some("a".into()), &f);
+        let f2 = w.fee_funds(&coin(50_000, "uusd"));
+        w.create_farm(&o, &lp2, Some(3), Some(9), coin(50_000, "uusd"), Some("b".into()), &f2);
+        w.create_farm(&d, &lp, Some(2), Some(6), coin(7_777, "uusd"), Some("c".into()), &f2.iter().map(|x| if x.denom == "uusd" { coin(7_777, "uusd") } else { x.clone() }).collect::<Vec<_>>());
+        let start: Vec<u128> = [&b, &c].iter().flat_map(|u| ["uweth", "uusd"].iter().map(|dn| w.s.bal(u, dn)).collect::<Vec<_>>()).collect();
+        for ep in 0..epochs {
+            // position changes of the fixed history (top-ups only: they never depend on pending rewards)
+            match ep {
+                0 => { w.pos_create(&b, Some("b1".into()), DAY, None, &[coin(1000, lp.clone())]); w.pos_create(&c, Some("c1".into()), 100 * DAY, None, &[coin(777, lp.clone())]); }
+                2 => { w.pos_create(&b, Some("b2".into()), 30 * DAY, None, &[coin(5000, lp2.clone())]); w.pos_expand(&c, "u-c1", &[coin(223, lp.clone())]); }
+                3 => { w.pos_create(&c, Some("c2".into()), DAY, None, &[coin(2500, lp2.clone())]); }
+                5 => { w.pos_expand(&b, "u-b1", &[coin(1, lp.clone())]); w.pos_expand(&b, "u-b2", &[coin(3333, lp2.clone())]); }
+                6 => { w.expand_farm(&o, "m-a", &lp, coin(2574, "uweth"), &[coin(2574, "uweth")]); }
+                _ => {}
+            }
+            // the schedule: 0 = every epoch, 1 = never before the end, 2.. = random subsets with random until
+            let cur = w.cur();
+            for u in [&b, &c] {
+                let do_claim = match sched { 0 => true, 1 => false, _ => rng.gen_bool(0.45) };
+                if do_claim && cur > 0 {
+                    let until = if sched >= 2 && rng.gen_bool(0.5) { Some(rng.gen_range(0..=cur)) } else { None };
+                    w.claim(u, until, &[]);
+                }
+            }
+            w.advance(DAY);
+        }
+        w.claim(&b, None, &[]);
+        w.claim(&c, None, &[]);
+        let end: Vec<u128> = [&b, &c].iter().flat_map(|u| ["uweth", "uusd"].iter().map(|dn| w.s.bal(u, dn)).collect::<Vec<_>>()).collect();
+        let tot: Vec<Value> = end.iter().zip(start.iter()).map(|(e, s0)| limbs(e - s0)).collect();
+        totals.push(json!(tot));
+        w.t.emit("twin", json!({"kind": "claim_schedule", "schedule": sched, "totals": totals.clone()}));
+    }
+}
+
+/// the limit of ten open and ten closed positions per user
+fn sc_position_limits(t: &mut Tracer) {
+    let mut w = W::new(SysCfg::default(), 1, t, "position_limits");
+    let lp = w.lps[0].clone();
+    let (b, c) = (w.user(1), w.user(2));
+    for k in 0..11 {
+        w.pos_create(&b, Some(format!("o{k}")), DAY, None, &[coin(100 + k, lp.clone())]); // the 11th open position is refused
+    }
+    w.pos_create(&c, Some("other".into()), DAY, None, &[coin(100, lp.clone())]); // limits are per user
+    for k in 0..10 {
+        w.pos_close(&b, &format!("u-o{k}"), None, &[]);
+    }
+    for k in 0..3 {
+        w.pos_create(&b, Some(format!("p{k}")), DAY, None, &[coin(50, lp.clone())]); // open slots are free again
+    }
+    w.pos_close(&b, "u-p0", None, &[]); // an 11th closed position is refused
+    w.pos_close(&b, "u-p1", Some(coin(1, lp.clone())), &[]); // also through a partial close
+    w.advance(DAY);
+    w.pos_withdraw(&b, "u-o0", None, &[]);
+    w.pos_close(&b, "u-p0", None, &[]); // room again
+    w.pages(3);
+    w.pages(4);
+    w.pages(30);
 }
 
 // ------------------------------------------------------------------------------------ random histories
@@ -869,6 +977,8 @@ pub fn run(rng: &mut StdRng, thorough: bool, t: &mut Tracer) {
     sc_two_lps_shared_cursor(t);
     sc_many_farms_exact_thirds_long_farm(t);
     sc_alternating_lp_positions(t);
+    sc_position_limits(t);
+    sc_claim_schedule_twins(rng, t, if thorough { 8 } else { 4 });
     // seeded random histories
     let (n, steps) = if thorough { (40, 120) } else { (6, 70) };
     for i in 0..n {
